@@ -6,6 +6,9 @@ from vp_lib.carbonenv import make_receiver, quiet
 import carbon.protocols as protocols  # noqa: E402
 
 quiet(protocols)
+# sub-second timestamps (pickle senders transmit floats): two of them share a whole second and are
+# stored later-one-first, so ordering / de-duplication by truncated timestamp is visible
+L.STAMPS = [10.75, 10.25, 30]
 
 
 def _sorted_unique(batch):
